@@ -31,19 +31,22 @@ import (
 func c14() {
 	r := vk.Start("C14", "exploration")
 	c14Match(r)
+	c14Accel(r)
 	c14Scan(r)
 	r.Assume("pattern grammar: ['!']['/'] segment {'/' segment} ['/'], segment = literal | glob with * ? [class] | '**' (whole segment only); no '.'/'..' segments, no backslash, no braces")
 	r.Assume("single-pattern matching of patterns containing '**' is delegated to github.com/bmatcuk/doublestar/v4 (third-party, pinned); all other patterns use the harness's own segment matcher")
 	r.Assume("the verdict of part (i) is the boolean 'ignored'; the nominal/unignored distinction has no effect under Mutagen-style syntax and is only counted")
+	r.Assume("part (iii): accelerated scans are driven as the local endpoint drives them — previous snapshot as baseline, previous digest and ignore caches, re-check paths = {parent directory of the changed entry} (\"\" for the root, the Linux watcher's convention) or {the entry's own path}; pattern lists of part (iii) hold no negated character class")
 	r.Assume("scans run as root on ext4 scratch space; the inotify sensor watches every directory at or below a reference-ignored directory, its liveness control is the scan root plus every traversed directory")
 	floor := 40
-	if r.Counter("ii_scans_with_nonempty_ignored_directory") < 20 || r.Counter("ii_watched_ignored_directories") < 50 || r.Counter("i_pairs_with_several_matches") < 1000 {
+	if r.Counter("ii_scans_with_nonempty_ignored_directory") < 20 || r.Counter("ii_watched_ignored_directories") < 50 || r.Counter("i_pairs_with_several_matches") < 1000 ||
+		r.Counter("iii_kind_flips_with_opposite_verdict_parent") < 20 || r.Counter("iii_kind_flips_with_opposite_verdict_self") < 20 || r.Counter("iii_pruned_target_directories_watched") < 20 {
 		// one of the two parts observed (almost) nothing — e.g. inotify was
 		// unavailable for every scan: no verdict rather than a silent pass.
-		fmt.Println("ERROR: C14 observed too few non-trivial scans / sensor watches / multi-match pairs")
+		fmt.Println("ERROR: C14 observed too few non-trivial scans / sensor watches / multi-match pairs / kind flips with opposite verdict")
 		floor = 1 << 30
 	}
-	r.Finish("(i) seeded random pattern lists x paths (two thirds derived from a pattern of the list) x directory flag; a pair is non-trivial if at least one pattern matches; distinct = (features of the deciding pattern, number of matching patterns bucket, deciding pattern is last, directory flag, depth, verdict). (ii) seeded random trees + lists scanned by the real core.Scan; a scan is non-trivial if a non-empty directory is ignored; distinct = (VCS option, ignored directory/file count buckets, depth of the deepest ignored directory, features of a deciding pattern)", floor)
+	r.Finish("(i) seeded random pattern lists x paths (two thirds derived from a pattern of the list) x directory flag; a pair is non-trivial if at least one pattern matches; distinct = (features of the deciding pattern, number of matching patterns bucket, deciding pattern is last, directory flag, depth, verdict). (ii) seeded random trees + lists scanned by the real core.Scan; a scan is non-trivial if a non-empty directory is ignored; distinct = (VCS option, ignored directory/file count buckets, depth of the deepest ignored directory, features of a deciding pattern). (iii) seeded histories cold scan -> {replace one entry by absent/file/directory of the same name, accelerated rescan} x 2-3 in two chains (recheck = parent directory / recheck = the entry); distinct = (chain, kind before>after, reference verdict before>after, depth, step, renamed into place)", floor)
 }
 
 func patternFeatures(p ignorex.MPattern) string {
